@@ -644,6 +644,8 @@ void node_lvalue_arg(uint32_t vid)
 }
 
 void set_alloc_tracking(bool) {}
+void functor_owner(int owner) { OpRec* o = cur(); if (o && owner != o->expected_owner) ++o->foreign_functor_calls; }
+void set_expected_owner(int owner) { OpRec* o = cur(); if (o) o->expected_owner = owner; }
 void own_copies(int delta) { OpRec* o = cur(); if (o) o->own_copy_depth += delta; }
 int64_t copies_so_far() { OpRec* o = cur(); return o ? o->n_copy : 0; }
 void functor_enter() { OpRec* o = cur(); if (o) ++o->functor_depth; }
